@@ -33,6 +33,6 @@ for l in open(after):
                                "inconclusive_messages": v["inconclusive"], "wall_s": v["wall"]} for p, v in res.items()},
             "detected_by": sorted(p for p, v in res.items() if v["exit"] == 1)}
     if bres:
-        meta["checks_before_strengthening"] = {p: {"verif_commit": "624cc41", "exit": v["exit"], "violated_labels": v["labels"]} for p, v in bres.items()}
+        meta["checks_before_strengthening"] = {p: {"verif_commit": os.environ.get("BEFORE_COMMIT", "624cc41"), "exit": v["exit"], "violated_labels": v["labels"]} for p, v in bres.items()}
     json.dump(meta, open(dst + "/meta.json", "w"), indent=1)
     print(sid, "detected_by", meta["detected_by"], "before:", {p: v["exit"] for p, v in bres.items()})
